@@ -20,6 +20,7 @@ has kept at every path (`HState`):
 * `history_correct` — after any history (older versions, other values, restricted stages, failures) from an empty
                       store, real or noop, an evaluation returns what plain execution of the current version returns from
                       the values kept so far.
+* `history_correct_loadfree` — the same for versions that never call `dds.load`, with no hypothesis on loads at all.
 Non-vacuity: `DdsProofs/MemoExample.lean` (a concrete universe with two versions and a reader that loads, all
 hypotheses proved, the history computed by the kernel).
 
@@ -106,5 +107,18 @@ theorem history_correct (U : Universe) (m x : Nat) (noop : Bool) (hist : List HS
     (evalStep m W (runHist m { store := { noop := noop }, kept := [] } hist).store rq).value =
       ((plainFn W W.fuel { kept := (runHist m { store := { noop := noop }, kept := [] } hist).kept } fn env).1).map some :=
   history_value U m x noop hist hok W rq E hrq ha hext hs
+
+/-- **C01 for load-free pipelines, without any hypothesis on loads**: after any history of versions none of which calls
+`dds.load`, an evaluation of such a version returns what plain execution returns -/
+theorem history_correct_loadfree (U : Universe) (m x : Nat) (noop : Bool) (hist : List HStep)
+    (hok : ∀ s ∈ hist, s.ok U x ∧ s.world.loadFree)
+    (W : World) (rq : Request) (E : EvalCtx U x W) (hlf : W.loadFree) (hrq : U.request rq)
+    {fn : Fn} {env : Env} {fis : FIS} {paths : List (String × Sg)}
+    (ha : analysisPhase m W (runHist m { store := { noop := noop }, kept := [] } hist).store rq = .ok (fn, env, fis, paths))
+    (hs : Stage.eval ∈ rq.stages) :
+    (evalStep m W (runHist m { store := { noop := noop }, kept := [] } hist).store rq).value =
+      ((plainFn W W.fuel { kept := (runHist m { store := { noop := noop }, kept := [] } hist).kept } fn env).1).map some :=
+  history_value U m x noop hist (histOK_of_loadFree U m x hist _ hok) W rq E hrq ha
+    (externalLoads_of_loadFree hlf _ rq fn env fis paths ha) hs
 
 end Dds.C01
